@@ -8,7 +8,7 @@ use vh::{json, Cli, Report, Rng};
 fn main() {
     let cli = Cli::parse();
     let mut rep = Report::new("C04", &cli);
-    rep.note("rule", json!("case = Sort / VisualSort / BatchSort / BatchVisualSort (both positional metrics, shards 1..4; for the batch kinds the interleaving is a batch holding several scenes and the projection feeds one scene per batch) x interleaved history of 30..90 predict calls over 2..4 scenes; in 60% of the cases the scenes' objects occupy exactly the same image coordinates; a third of the histories also contain skip_epochs calls for single scenes (scene 0 is addressed through the scene-less API variants in half of the tracker configurations); in ~3% of the cases a further scene of the same tracker holds 1200..1600 tracks (created before the history, never touched again) while the history's own scenes are crowded (14..16 objects). Monitors: (1) lifecycle model: no record may continue a track of another scene; (2) differential: for every scene the projection of the history onto that scene is replayed on a fresh tracker and the interleaved run's records for that scene must equal it call by call - same grouping up to an id bijection built incrementally, and bit-identical boxes, epochs, lengths, custom ids. A grouping difference is handed to the explain-divergence oracle (C02 / C12 references on both runs' own pre-call states): it is a violation unless both outcomes are valid optimal associations (then it is counted as a tie divergence); a difference in numbers with equal grouping is always a violation. Non-trivial: scene projections with >= 2 calls in which another scene's call lies between two calls of this scene; distinct by (history, scene)."));
+    rep.note("rule", json!("case = Sort / VisualSort / BatchSort / BatchVisualSort (both positional metrics, shards 1..4; for the batch kinds the interleaving is a batch holding several scenes and the projection feeds one scene per batch) x interleaved history of 30..90 predict calls over 2..4 scenes; in 60% of the cases the scenes' objects occupy exactly the same image coordinates; a third of the histories also contain skip_epochs calls for single scenes (scene 0 is addressed through the scene-less API variants in half of the tracker configurations); in ~3% of the cases a further scene of the same tracker holds 1200..1600 tracks (created before the history, never touched again) while the history's own scenes are crowded (14..16 objects). Monitors: (1) lifecycle model: no record may continue a track of another scene; (2) differential: for every scene the projection of the history onto that scene is replayed on a fresh tracker and the interleaved run's records for that scene must equal it call by call - same grouping up to an id bijection built incrementally, and bit-identical boxes, epochs, lengths, custom ids. A grouping difference is handed to the explain-divergence oracle (C02 / C12 references on both runs' own pre-call states): it is a violation unless both outcomes are valid optimal associations (then it is counted as a tie divergence); a difference in numbers with equal grouping is always a violation. One stress case per process and batch kind (48 same-region scenes per batch, 8 voting threads, every detection a new track) checks that records stay within their scene and ids stay fresh while everything the voting threads share collides as often as it can. Non-trivial: scene projections with >= 2 calls in which another scene's call lies between two calls of this scene; distinct by (history, scene)."));
     rep.note("assumptions", json!(["histories contain no bit-identical detections within a call"]));
     let n = cli.cases(640, 5000);
     for idx in cli.index_range(n) {
@@ -211,6 +211,51 @@ fn main() {
         }
         if rep.want_sample() {
             rep.sample(json!({"cfg": cfg.js(), "scenes": scenes, "same_region": w.same_region, "call_scene_order": log.iter().map(|c| c.scene).collect::<Vec<_>>(), "first_call": log.first().map(|c| c.dets.iter().map(|d| d.js()).collect::<Vec<_>>())}));
+        }
+    }
+    // ---- stress case (per process): 48 scenes occupying the same image region, voted by 8 threads at once; every
+    // detection starts a track (max_idle 0). Whatever the voting threads share (id allocation, the store, the epochs)
+    // collides as often as it can: every record must stay within its scene and every id must be fresh.
+    if !cli.small && cli.replay_index.is_none() {
+        for kind in [Kind::BatchSort, Kind::BatchVisual] {
+            let mut rng = Rng::for_case(cli.seed, cli.shard, 1 << 40);
+            let mut cfg = gen_cfg(&mut rng, kind);
+            cfg.max_idle = 0;
+            cfg.shards = 2;
+            cfg.voting_shards = 8;
+            cfg.constraints = None;
+            cfg.vis.own_use = 0.0;
+            cfg.vis.own_collect = 0.0;
+            cfg.pos = PosMetric::IoU(0.3);
+            cfg.auto_waste = None;
+            let scenes = 48u64;
+            let mut trk = AnyTracker::new(&cfg);
+            let mut life = Life::new(0);
+            let nb = if cli.thorough() { 300 } else { 70 };
+            rep.count("stress_cases");
+            'stress: for b in 0..nb {
+                let batch: Vec<(u64, Vec<Det>)> = (0..scenes)
+                    .map(|s| {
+                        let dets = (0..2)
+                            .map(|k| Det { b: DBox { xc: 100.0 + 500.0 * k as f32 + 97.0 * (b % 7) as f32, yc: 100.0 + 311.0 * ((b + k) % 5) as f32, angle: None, aspect: 0.5, h: 40.0, conf: 1.0 }, custom: Some((b * 1000 + k) as i64), feature: Some(vec![k as f32, 1.0]), quality: Some(1.0), truth: 0 })
+                            .collect();
+                        (s, dets)
+                    })
+                    .collect();
+                let out = trk.predict_batch(&batch);
+                if out.len() != batch.len() {
+                    rep.violation(&format!("C04/{:?}/stress/scene-results-missing", kind), 1 << 40, json!({"batch": b, "submitted": batch.len(), "delivered": out.len()}));
+                    break 'stress;
+                }
+                for (scene, recs) in &out {
+                    let dets = &batch.iter().find(|c| c.0 == *scene).unwrap().1;
+                    for (sig, d) in life.on_predict(*scene, dets, recs, false) {
+                        rep.violation(&format!("C04/{:?}/stress/{}", kind, sig), 1 << 40, json!({"batch": b, "scene": scene, "detail": d}));
+                        break 'stress;
+                    }
+                    rep.add("stress_records", recs.len() as u64);
+                }
+            }
         }
     }
     rep.finish();
